@@ -945,3 +945,10 @@ mod tests {
 #[cfg(feature = "verif-hooks")]
 #[path = "verif_hooks_c10.rs"]
 pub mod verif_hooks_c10;
+
+/// Verification hooks for the RIB properties C01/C02/C03 (feature
+/// `verif-hooks`, add-only); a child module because `Processor` is private
+/// to this module.
+#[cfg(feature = "verif-hooks")]
+#[path = "verif_hooks_c01.rs"]
+pub mod verif_hooks_c01;
